@@ -34,6 +34,11 @@ def opOk (ord : Bool) : BinOp → Bool
   | .lt | .le | .gt | .ge => ord
   | _ => true
 
+/-- is `k` the name of a loop helper (`x__index`, `x__lastIndex`)?  The interpreter keeps those in the loop's
+    frame as ordinary bindings; the specification keeps them apart (they are reachable through `index` /
+    `isFirst` / `isLast` only), so the fragment does not read variables of such names. -/
+def isHelper (k : Bytes) : Bool := sIndexSuffix.isSuffixOf k || sLastIndexSuffix.isSuffixOf k
+
 /-- the scalar operator fragment, with (`ord = true`) or without the four ordering comparisons -/
 def fragO (ord : Bool) : Expr → Bool
   | .null _ => true
@@ -42,7 +47,7 @@ def fragO (ord : Bool) : Expr → Bool
   | .float _ _ => true
   | .str _ _ _ => true
   | .global _ _ => true
-  | .dataRef _ key .nil => key != sIj
+  | .dataRef _ key .nil => key != sIj && !isHelper key
   | .not _ a => fragO ord a
   | .neg _ a => fragO ord a
   | .bin op _ a b => opOk ord op && fragO ord a && fragO ord b
@@ -54,7 +59,7 @@ def frag (e : Expr) : Bool := fragO false e
 
 /-- the model's environment and the specification's bind the same scalars -/
 structure EnvRel (m : EEnv) (s : Spec.Eval.Env) : Prop where
-  vars : ∀ k, absV (m.lookup k) = s.lookup k
+  vars : ∀ k, isHelper k = false → absV (m.lookup k) = s.lookup k
   scalar : ∀ k, Scalar (m.lookup k) = true
   globals : ∀ k, match Frame.find m.globals k with
     | some v => Spec.Eval.find s.globals k = some (absV v) ∧ Scalar v = true
@@ -148,12 +153,12 @@ theorem eval_refines_spec_ord (ord : Bool) (hord : ord = true → OrdExact) : (e
       simp
   | .dataRef _ key .nil, hf => by
     intro n
-    simp only [fragO, bne_iff_ne, ne_eq] at hf
-    have h1 : (key == sIj) = false := by simpa using hf
+    simp only [fragO, bne_iff_ne, ne_eq, Bool.and_eq_true, Bool.not_eq_true'] at hf
+    have h1 : (key == sIj) = false := by simpa using hf.1
     have h2 : (key == Spec.Eval.sIj) = false := h1
     rw [Spec.Eval.eval, evalE]
     simp only [h1, h2, Bool.false_eq_true, if_false, Spec.Eval.evalAcc, evalAccesses]
-    simp [hr.vars key, hr.scalar key]
+    simp [hr.vars key hf.2, hr.scalar key]
   | .not _ a, hf => by
     intro n
     have ih := eval_refines_spec_ord ord hord a (by simpa [fragO] using hf) n
@@ -478,12 +483,16 @@ theorem print_error_writes_nothing (g : GEnv) (esc : Bool) (pos : Nat) (arg : Ex
     (ctx : Scope) (st : St) (h : (evalPrint g esc pos arg dirs ctx st).cls = .err) :
     (evalPrint g esc pos arg dirs ctx st).st.out = st.out := by
   unfold evalPrint at h ⊢
+  show (evalPrintAt g esc pos arg dirs ctx (atNode st arg.pos)).st.out = (atNode st arg.pos).out
+  generalize atNode st arg.pos = st' at h ⊢
+  unfold evalPrintAt at h ⊢
   split
   · rfl
   · rename_i st1 he; exact evalIn_out he
   · rename_i v st1 _ he
     split
-    · exact evalIn_out he
+    · have := evalIn_out he
+      exact this
     · rename_i r esc' st2 hd
       split
       · rw [runDirectives_out _ _ _ _ _ _ _ hd, evalIn_out he]
@@ -497,7 +506,7 @@ def m0 : EEnv := { lookup := fun k => if k == [120] then .int 3 else .undefined,
 def s0 : Spec.Eval.Env := { vars := [([120], .int 3)], loops := [], ij := none, globals := [] }
 
 theorem rel0 : EnvRel m0 s0 := by
-  refine ⟨fun k => ?_, fun k => ?_, fun k => ?_⟩
+  refine ⟨fun k _ => ?_, fun k => ?_, fun k => ?_⟩
   · by_cases h : k = [120]
     · subst h; rfl
     · have h' : ([120] == k) = false := by simpa using fun e => h e.symm
